@@ -14,6 +14,6 @@ CONSTANTS
   Check = TRUE
 CONSTRAINT HighWater
 INVARIANTS TypeOK Bound WasSent LruOK
-PROPERTY StepOK
+PROPERTY ImplConforms
 POSTCONDITION TraceAccepted
 CHECK_DEADLOCK FALSE
